@@ -35,6 +35,9 @@ class VClock(object):
         self.arrivals = []          # [abs_time, callable]
         self.log = []
         self.horizon = None         # absolute virtual time after which the scenario is aborted
+        self.interrupts = []        # absolute virtual times at which a signal with a Python handler arrives
+        self.handler_cost = 0.0     # virtual seconds the handler runs
+        self.eintr = 0              # how many waits were interrupted
 
     def schedule(self, rel_times_and_actions):
         t = self.now
@@ -63,17 +66,28 @@ class VClock(object):
         self.due()
         self.check_horizon()
 
-    def wait(self, ready, timeout):
-        """the blocking wait; returns ready() at the end"""
+    def wait(self, ready, timeout, interruptible=False):
+        """the blocking wait; returns ready() at the end.  interruptible: a signal that arrives while the call sleeps makes it fail with
+        EINTR after the handler has run (select / poll as the wrappers in pexpect.utils were written for; CPython >= 3.5 restarts the call itself
+        unless the handler raises, so on a real system those branches run only for handlers that raise InterruptedError)"""
         self.now += self.tick
         self.due()
         self.check_horizon()
+        while self.interrupts and self.interrupts[0] <= self.now:
+            self.interrupts.pop(0)          # arrived while no call was sleeping: the handler ran between two bytecodes
         if ready():
             return True
         if timeout == 0:
             return False
         end = None if timeout is None else self.now + max(0.0, timeout)
         while True:
+            if interruptible and self.interrupts and (end is None or self.interrupts[0] < end) and \
+                    (not self.arrivals or self.interrupts[0] < self.arrivals[0][0]):
+                self.now = max(self.now, self.interrupts.pop(0)) + self.handler_cost
+                self.eintr += 1
+                self.due()
+                self.check_horizon()
+                raise InterruptedError(errno.EINTR, 'Interrupted system call')
             if self.arrivals and (end is None or self.arrivals[0][0] <= end):
                 self.now = max(self.now, self.arrivals[0][0])
                 self.due()
@@ -105,7 +119,7 @@ class PollProxy(object):
         if timeout_ms is not None and timeout_ms < 0:
             timeout_ms = None                       # poll(2): a negative timeout means "no timeout"
         t = None if timeout_ms is None else math.ceil(timeout_ms) / 1000.0     # CPython rounds the timeout up to a whole millisecond
-        ok = self.clk.wait(lambda: bool(self.p.poll(0)), t)
+        ok = self.clk.wait(lambda: bool(self.p.poll(0)), t, interruptible=True)
         return self.p.poll(0) if ok else []
 
 
@@ -119,7 +133,7 @@ class SelectProxy(object):
     def select(self, r, w, e, timeout=None):
         if timeout is not None and timeout < 0:
             raise ValueError('timeout must be non-negative')
-        ok = self.clk.wait(lambda: bool(select.select(r, w, e, 0)[0]), timeout)
+        ok = self.clk.wait(lambda: bool(select.select(r, w, e, 0)[0]), timeout, interruptible=True)
         return select.select(r, w, e, 0) if ok else ([], [], [])
 
     def poll(self):
